@@ -19,6 +19,7 @@ package rm
 
 import (
 	"fmt"
+	gettySession0 "github.com/apache/dubbo-getty"
 	"sync"
 
 	"github.com/pkg/errors"
@@ -34,6 +35,41 @@ var (
 )
 
 var ErrBranchReportResponseFault = errors.New("branch report response fault")
+
+func init() {
+	getty.AddSessionOpenListener(registerResourcesOnSession)
+}
+
+// registerResourcesOnSession announces every resource registered so far on a
+// newly opened session: after a reconnect the seata server knows nothing about
+// them and could not deliver phase two.
+func registerResourcesOnSession(session gettySession0.Session) {
+	GetRmCacheInstance().resourceManagerMap.Range(func(_, value interface{}) bool {
+		manager, ok := value.(ResourceManager)
+		if !ok || manager.GetCachedResources() == nil {
+			return true
+		}
+		manager.GetCachedResources().Range(func(_, r interface{}) bool {
+			resource, ok := r.(Resource)
+			if !ok {
+				return true
+			}
+			req := message.RegisterRMRequest{
+				AbstractIdentifyRequest: message.AbstractIdentifyRequest{
+					Version:                 "1.5.2",
+					ApplicationId:           rmConfig.ApplicationID,
+					TransactionServiceGroup: rmConfig.TxServiceGroup,
+				},
+				ResourceIds: resource.GetResourceId(),
+			}
+			if err := getty.GetGettyRemotingClient().SendAsyncRequestOnSession(session, req); err != nil {
+				log.Errorf("register resource %s on the new session: %v", resource.GetResourceId(), err)
+			}
+			return true
+		})
+		return true
+	})
+}
 
 func GetRMRemotingInstance() *RMRemoting {
 	if rmRemoting == nil {
